@@ -34,3 +34,41 @@ for _dens in (True, False):
 X("numpy.histogramdd", "c07:plain-first+density+weights", lambda g: ([[_plain(g), _u(g)]], {"density": True, "bins": 2, "weights": Q(g.raw((12,), 1, 4, "f8"), "B")}), tags=IND, shapes=("1d",),
   params={"sample", "density", "bins", "weights"})
 X("numpy.meshgrid", "c07:plain-axis", lambda g: [_plain(g, 3), _u(g, "A", 4), _u(g, "B", 2)], tags={"mixed-result", "independent-operands"}, shapes=("1d",), params={"xi"})
+
+
+# ---- fill values given as quantities in every spelling NumPy accepts (scalar, flat pair, per-axis nested tuples / lists):
+# with the 'mixed' unit families of C07 the fill values are written in another unit than the data
+SD = {"same-dimension"}
+
+
+def _arr(g):
+    if len(g.dims()) < 1:
+        from vf.gen.npcatalog import Skip
+        raise Skip("ndim<1")
+    return g.a()
+
+
+def _fv(g):
+    return g.q(np.asarray(g.raw((), 1, 9), g.dtype))
+
+
+X("numpy.pad", "c07:constant_values#qpair", lambda g: ([_arr(g), (1, 2)], {"constant_values": (_fv(g), _fv(g))}), tags=SD, shapes=("1d", "2d", "3d"),
+  params={"constant_values"})
+X("numpy.pad", "c07:constant_values#qnested-tuple", lambda g: (lambda a: ([a, 1], {"constant_values": tuple((_fv(g), _fv(g)) for _ in range(a.data.ndim))}))(_arr(g)),
+  tags=SD, shapes=("1d", "2d", "3d"), params={"constant_values"})
+X("numpy.pad", "c07:constant_values#qnested-list", lambda g: (lambda a: ([a, (2, 1)], {"mode": "constant", "constant_values": [[_fv(g), _fv(g)] for _ in range(a.data.ndim)]}))(_arr(g)),
+  tags=SD, shapes=("1d", "2d"), params={"constant_values", "mode"})
+X("numpy.pad", "c07:constant_values#qnested-half", lambda g: (lambda a: ([a, 1], {"constant_values": tuple((_fv(g), 0) for _ in range(a.data.ndim))}))(_arr(g)),
+  tags=SD, shapes=("1d", "2d"), params={"constant_values"})
+X("numpy.pad", "c07:end_values#q", lambda g: (g.real_only() or ([_arr(g), 2], {"mode": "linear_ramp", "end_values": _fv(g)})), tags=SD, shapes=("1d", "2d"),
+  params={"end_values", "mode"})
+X("numpy.pad", "c07:end_values#qpair", lambda g: (g.real_only() or ([_arr(g), 2], {"mode": "linear_ramp", "end_values": (_fv(g), _fv(g))})), tags=SD, shapes=("1d", "2d"),
+  params={"end_values", "mode"})
+X("numpy.pad", "c07:end_values#qnested", lambda g: (g.real_only() or (lambda a: ([a, 2], {"mode": "linear_ramp", "end_values": tuple((_fv(g), _fv(g)) for _ in range(a.data.ndim))}))(_arr(g))),
+  tags=SD, shapes=("1d", "2d"), params={"end_values", "mode"})
+X("numpy.diff", "c07:prepend#qscalar", lambda g: ([g.a(shape=(6,))], {"prepend": _fv(g)}), tags=SD, shapes=("1d",), params={"prepend"})
+X("numpy.diff", "c07:append#qlist", lambda g: ([g.a(shape=(6,))], {"append": [_fv(g), _fv(g)]}), tags=SD, shapes=("1d",), params={"append"})
+X("numpy.ediff1d", "c07:to_begin#q+to_end#qlist", lambda g: ([g.a(shape=(6,))], {"to_begin": _fv(g), "to_end": [_fv(g), _fv(g)]}), tags=SD, shapes=("1d",),
+  params={"to_begin", "to_end"})
+X("numpy.interp", "c07:left#q+right#q", lambda g: (g.real_only() or ([g.q(np.array([-1.0, 2.5, 9.0]), "B"), g.q(np.array([0.0, 1.0, 4.0, 8.0]), "B"), g.a(shape=(4,))],
+                                                                       {"left": _fv(g), "right": _fv(g)})), tags=SD, shapes=("1d",), dtypes=("f8", "f4"), params={"left", "right"})
